@@ -1439,6 +1439,9 @@ class SimKernel:
             return CLK_TCK
         if name == "SC_NPROCESSORS_ONLN":
             return self.ncpu_online
+        if name == "SC_NPROCESSORS_CONF":
+            # configured = online + offline ones
+            return self.ncpu_online + int(self.cfg.get("ncpu_offline", 0))
         if name in ("SC_PAGE_SIZE", "SC_PAGESIZE"):
             return PAGE
         raise ValueError("unrecognized configuration name")
